@@ -377,6 +377,8 @@ class FormatSpec(object):
         return candidates
 
     def str_for(self, s):
+        # The literal text of a format spec is subject to the same escape processing as the rest of the f-string
+        s = s.replace('\\', '\\\\').replace('\0', '\\x00').replace('\r', '\\r')
         return s.replace('{', '{{').replace('}', '}}')
 
 
